@@ -227,6 +227,38 @@ Theorem C16_update_keys_restores_sync :
 Proof. exact update_restores_sync. Qed.
 Print Assumptions C16_update_keys_restores_sync.
 
+(** ---- open finding F-C16-n: Patch names a changed item of a keyed collection by its index,
+    keyed readers subscribe by the path segment of their key ---- *)
+
+(** refuted as a statement about all histories: [7; 8] reordered into [8; 7] through the
+    collection's own guard, then patched with a new value for the item of key 7: the reader of
+    key 8 (reader 1) is queued, the reader of key 7 (reader 0) is not *)
+Theorem C16_patch_keyed_item_refuted :
+  let sh := SStruct [SKeyed (SStruct [SInt; SInt])] in
+  let it k n := Lst [Num k; Num n] in
+  let v := Lst [Lst [it 7%Z 1%Z; it 8%Z 2%Z]] in
+  let readers := [mkReader 0 0 [Fld 0; Key 7%Z; Fld 1]; mkReader 0 0 [Fld 0; Key 8%Z; Fld 1]] in
+  let s := after sh readers [] [] v [HSet [Fld 0] (Lst [it 8%Z 2%Z; it 7%Z 1%Z])] in
+  st_queue (fst (do_patch sh s [Fld 0] (Lst [it 8%Z 2%Z; it 7%Z 5%Z]))) = [1].
+Proof. exact patch_keyed_item_refuted. Qed.
+Print Assumptions C16_patch_keyed_item_refuted.
+
+(** except in that known class (KnownClass = the collection's key map is not aligned: some
+    key's path segment differs from its index, ~ keys_aligned), the path of a keyed item is the
+    index path Patch notifies, so C16_sim_patch_wakes_exactly_related speaks about keyed
+    readers too; a fresh key map is aligned *)
+Theorem C16_patch_keyed_item_except_known :
+  forall r v k s0 f,
+    r_sh r = SKeyed s0 -> km_find (r_segs r) (r_keys r) = Some f -> keys_aligned f ->
+    forall seg idx, fk_get k f = Some (seg, idx) ->
+      r_segs (extend r v (Key k)) = r_segs r ++ [idx].
+Proof. exact keyed_path_is_index_path_except_known. Qed.
+Print Assumptions C16_patch_keyed_item_except_known.
+
+Theorem C16_fresh_keys_aligned : forall ks, NoDup ks -> keys_aligned (fk_new ks).
+Proof. exact fk_new_aligned. Qed.
+Print Assumptions C16_fresh_keys_aligned.
+
 (** nested keyed collections (keyed inside a keyed item): when update_keys() of the outer
     collection removes a key, the FieldKeys of every keyed field at or below the removed item's
     path are forgotten (repair of F-C16-l), so the item that later takes over the recycled path
